@@ -1,7 +1,9 @@
 package rest
 
 import (
+	"errors"
 	"net/http"
+	"sync"
 	"time"
 
 	"github.com/gorilla/websocket"
@@ -34,9 +36,11 @@ var upgraderV2 = websocket.Upgrader{
 
 // msgListenerV2 handles messages from the msghub
 type msgListenerV2 struct {
-	hub     *msghub.Hub                    // Global message hub.
-	c       chan *model.JSONMonitorEventV2 // Queue of incoming events.
-	mailbox string                         // Name of mailbox to monitor, "" == all mailboxes.
+	hub       *msghub.Hub                    // Global message hub.
+	c         chan *model.JSONMonitorEventV2 // Queue of incoming events.
+	done      chan struct{}                  // Closed when the listener is closed.
+	closeOnce sync.Once                      // Guards done.
+	mailbox   string                         // Name of mailbox to monitor, "" == all mailboxes.
 }
 
 // newMsgListenerV2 creates a listener and registers it.  Optional mailbox parameter will restrict
@@ -45,6 +49,7 @@ func newMsgListenerV2(hub *msghub.Hub, mailbox string) *msgListenerV2 {
 	ml := &msgListenerV2{
 		hub:     hub,
 		c:       make(chan *model.JSONMonitorEventV2, 100),
+		done:    make(chan struct{}),
 		mailbox: mailbox,
 	}
 	hub.AddListener(ml)
@@ -59,12 +64,10 @@ func (ml *msgListenerV2) Receive(msg event.MessageMetadata) error {
 	}
 
 	// Enqueue for websocket.
-	ml.c <- &model.JSONMonitorEventV2{
+	return ml.enqueue(&model.JSONMonitorEventV2{
 		Variant: "message-stored",
 		Header:  metadataToHeader(&msg),
-	}
-
-	return nil
+	})
 }
 
 // Delete handles a deleted message.
@@ -75,15 +78,13 @@ func (ml *msgListenerV2) Delete(mailbox string, id string) error {
 	}
 
 	// Enqueue for websocket.
-	ml.c <- &model.JSONMonitorEventV2{
+	return ml.enqueue(&model.JSONMonitorEventV2{
 		Variant: "message-deleted",
 		Identifier: &model.JSONMessageIDV2{
 			Mailbox: mailbox,
 			ID:      id,
 		},
-	}
-
-	return nil
+	})
 }
 
 // WSReader makes sure the websocket client is still connected, discards any messages from client
@@ -136,14 +137,16 @@ func (ml *msgListenerV2) WSWriter(conn *websocket.Conn) {
 	// Handle messages from hub until msgListener is closed
 	for {
 		select {
-		case event, ok := <-ml.c:
+		case <-ml.done:
+			// msgListener closed, exit
+			if err := conn.SetWriteDeadline(time.Now().Add(writeWaitV2)); err != nil {
+				slog.Warn().Err(err).Msg("Failed to set write deadline for close")
+			}
+			_ = conn.WriteMessage(websocket.CloseMessage, []byte{})
+			return
+		case event := <-ml.c:
 			if err := conn.SetWriteDeadline(time.Now().Add(writeWaitV2)); err != nil {
 				slog.Warn().Err(err).Msg("Failed to set write deadline for msg")
-			}
-			if !ok {
-				// msgListener closed, exit
-				_ = conn.WriteMessage(websocket.CloseMessage, []byte{})
-				return
 			}
 			if conn.WriteJSON(event) != nil {
 				// Write failed
@@ -163,15 +166,33 @@ func (ml *msgListenerV2) WSWriter(conn *websocket.Conn) {
 	}
 }
 
-// Close removes the listener registration
-func (ml *msgListenerV2) Close() {
+// errListenerV2Closed is returned to the hub for events that arrive after Close.
+var errListenerV2Closed = errors.New("websocket listener closed")
+
+// enqueue queues an event for the websocket, waiting for room in the queue unless the listener
+// has been closed.  The queue is never closed, so a broadcast in progress cannot panic.
+func (ml *msgListenerV2) enqueue(ev *model.JSONMonitorEventV2) error {
 	select {
-	case <-ml.c:
-		// Already closed
+	case <-ml.done:
+		return errListenerV2Closed
 	default:
-		ml.hub.RemoveListener(ml)
-		close(ml.c)
 	}
+	select {
+	case ml.c <- ev:
+		return nil
+	case <-ml.done:
+		// Closed while we waited; the hub drops this listener.
+		return errListenerV2Closed
+	}
+}
+
+// Close removes the listener registration.  It may be called more than once, and while events
+// are still queued.
+func (ml *msgListenerV2) Close() {
+	ml.closeOnce.Do(func() {
+		close(ml.done)
+		ml.hub.RemoveListener(ml)
+	})
 }
 
 // MonitorAllMessagesV2 is a web handler which upgrades the connection to a websocket and notifies
